@@ -82,7 +82,18 @@ def induction(tag, T, facts, I, cums, conclude, extra_at=None):
     return recs
 
 
+_LEDGER_CACHE = {}
+
+
 def ledger_obligations(repo, tier, seed):
+    """(memoised per process: C02 and C03 re-run these lemmas under their own names)"""
+    key = (repo, tier)
+    if key not in _LEDGER_CACHE:
+        _LEDGER_CACHE[key] = _ledger_obligations(repo, tier, seed)
+    return [dict(o) for o in _LEDGER_CACHE[key]]
+
+
+def _ledger_obligations(repo, tier, seed):
     out = []
     for store in (True, False):
         for otype in ("to_humans", "to_animals"):
